@@ -251,6 +251,8 @@ def plan_c17(tier, seed):
         T(mo.check_merge_hull, "C17", "Variance")
         T(mo.check_sign_steps, "C17", "Variance")
         T(mo.check_sign_steps, "C17", "Moments4")
+        from . import hist as hi
+        T(hi.check_bin_variance_range, "C17")
     return run_set("C17", tier, False, body)
 
 
@@ -274,3 +276,19 @@ def plan_c15(tier, seed):
         T(qu.check_p2_step, "C15")
         T(qu.check_reference_invariants, "C15")
     return run_set("C15", tier, False, body)
+
+
+def plan_c13(tier, seed):
+    from . import hist as hi
+
+    def body(W, T):
+        T(hi.check_view_kernels, "C13")
+    return run_set("C13", tier, False, body)
+
+
+def plan_c12(tier, seed):
+    from . import hist as hi
+
+    def body(W, T):
+        T(hi.check_const_width, "C12")
+    return run_set("C12", tier, True, body)
